@@ -66,7 +66,10 @@ ConvOf(f, t) == CHOOSE c \in ConvTable : c.from = f /\ c.to = t
 (*   xty    type of the number handed over: "float" | "int" | "npfloat" | "nparray" | "npint"          *)
 (*   uname  the unit the number is expressed in, when it matters ("" otherwise)                        *)
 (*   ucv    the uncertainty is expressed in another unit than the display unit: its conversion         *)
-DefaultOpt == [api |-> "number", impl |-> FALSE, fsty |-> "g", xty |-> "float", uname |-> "", ucv |-> NoConv]
+(*   tbl    api "table" (as_per_substance_html_table: one printed number per substance row): how the      *)
+(*          container of values is ordered relative to the substances - "same" | "reversed" | "rotated"  *)
+(*          | "extra" (a dict with further keys) | "list" (values by position); "" otherwise           *)
+DefaultOpt == [api |-> "number", impl |-> FALSE, fsty |-> "g", xty |-> "float", uname |-> "", ucv |-> NoConv, tbl |-> ""]
 DefaultPrec(api) == IF api = "rxnstring" THEN 3 ELSE 5
 DefaultUncPrec == 2
 
@@ -242,8 +245,13 @@ WithUnit(u) ==
 IsIntegral(v) == LastPos(v) >= 0 /\ v.e <= 17
 Options(o) ==
     /\ stage = "value" /\ opt = DefaultOpt /\ o # DefaultOpt /\ conv = NoConv /\ unit = ""
-    /\ o.api \in {"number", "rxnstring"} /\ o.fsty \in {"g", "e"} /\ o.impl \in BOOLEAN
-    /\ o.xty \in {"float", "int", "npfloat", "nparray", "npint"}
+    /\ o.api \in {"number", "rxnstring", "table"} /\ o.fsty \in {"g", "e"} /\ o.impl \in BOOLEAN
+    \* ("uq": a quantity that carries an uncertainty, as parameter of a printed reaction: value and unit are shown)
+    /\ o.xty \in {"float", "int", "npfloat", "nparray", "npint", "uq"}
+    /\ (o.xty = "uq" => (o.uname # "" /\ (o.api = "rxnstring" \/ (o.api = "number" /\ o.impl)) /\ o.ucv = NoConv))
+    /\ o.tbl \in {"", "same", "reversed", "rotated", "extra", "list"}
+    /\ ((o.tbl # "") <=> (o.api = "table"))
+    /\ (o.api = "table" => (o.impl /\ o.fsty = "g" /\ o.ucv = NoConv /\ o.xty \in {"float", "npfloat"}))
     /\ (o.xty \in {"int", "npint"} => IsIntegral(x))
     /\ (o.fsty = "e" => (o.api = "number" /\ ~o.impl))
     /\ (o.ucv = NoConv \/ o.ucv \in ConvTable)
@@ -269,7 +277,7 @@ Format ==
 
 \* uncertainty: positive, at most half the magnitude of the value
 ChooseUncert(u, k, src) ==
-    /\ stage = "value" /\ k >= 1 /\ src \in {"arg", "attr"} /\ usrc' = src
+    /\ stage = "value" /\ k >= 1 /\ src \in {"arg", "attr"} /\ usrc' = src /\ opt.xty # "uq"
     /\ (opt.impl => k = DefaultUncPrec) /\ opt.fsty = "g" /\ opt.api = "number"
     /\ (opt.ucv # NoConv => (src = "arg" /\ DisplayName # "" /\ opt.ucv.to = DisplayName)) /\ IsNorm(u) /\ u.digs # <<>> /\ ~u.neg
     /\ LET su == ShownU(u)  sx == Shown(x) IN
@@ -362,7 +370,7 @@ Class ==
          \o (IF x.neg THEN "-neg" ELSE "") \o (IF unit # "" THEN "-unit" ELSE "")
          \o (IF opt # DefaultOpt THEN "-opt" ELSE "") \o (IF opt.impl THEN "-impl" ELSE "")
          \o (IF opt.fsty = "e" THEN "-e" ELSE "") \o (IF opt.xty # "float" THEN "-" \o opt.xty ELSE "")
-         \o (IF opt.api # "number" THEN "-" \o opt.api ELSE "")
+         \o (IF opt.api # "number" THEN "-" \o opt.api ELSE "") \o (IF opt.tbl # "" THEN "-" \o opt.tbl ELSE "")
          \o (IF DisplayName \in RatioUnits THEN "-ratio" ELSE "")
          \o (IF conv # NoConv THEN "-conv" ELSE "")
     ELSE IF mode = "uncert"
